@@ -89,6 +89,7 @@ type Exec struct {
 	draws        []Draw
 	axDone       map[string]bool
 	axByTrig     map[int][]*axEntry
+	onceDone     map[*Cell]bool
 	nondets      map[string]*Term // every nondet variable created on this path
 	ranges       map[string][2]int64
 	closureCalls map[*Closure]int
@@ -140,6 +141,7 @@ func (ex *Exec) RunPath(fn *ssa.Function, trail []int) (res *PathResult, newTrai
 	ex.draws = nil
 	ex.axDone = map[string]bool{}
 	ex.axByTrig = map[int][]*axEntry{}
+	ex.onceDone = map[*Cell]bool{}
 	ex.sol.alias = map[int]*Term{}
 	ex.nondets = map[string]*Term{}
 	ex.ranges = map[string][2]int64{}
@@ -177,7 +179,15 @@ func (ex *Exec) RunPath(fn *ssa.Function, trail []int) (res *PathResult, newTrai
 	return res, ex.pending
 }
 
+// maxDecisions bounds the number of forking decisions on one path (an unwinding bound for loops whose
+// exit condition stays symbolic, e.g. rejection sampling): exceeding it ends the path as inconclusive.
+const maxDecisions = 120
+
 func (ex *Exec) decide(n int, what string) int {
+	if ex.pos >= maxDecisions {
+		ex.res.Undischarged = append(ex.res.Undischarged, "unwinding bound: more than "+strconv.Itoa(maxDecisions)+" forking decisions on one path (last: "+what+")")
+		panic(abortPath{"unwinding bound hit"})
+	}
 	if ex.pos < len(ex.trail) {
 		k := ex.trail[ex.pos]
 		ex.pos++
@@ -608,11 +618,15 @@ func (ex *Exec) constFloat(v constant.Value) *Term {
 
 /* ---------------- frames ---------------- */
 
+const maxSymbolicUnwind = 8
+
 type frame struct {
-	fn   *ssa.Function
-	env  map[ssa.Value]Value
-	fv   []Value
-	prev *ssa.BasicBlock
+	symIf  map[*ssa.If]int
+	defers []func()
+	fn     *ssa.Function
+	env    map[ssa.Value]Value
+	fv     []Value
+	prev   *ssa.BasicBlock
 }
 
 func (ex *Exec) get(fr *frame, v ssa.Value) Value {
@@ -695,6 +709,15 @@ func (ex *Exec) call(fn *ssa.Function, args []Value, fv []Value, site ssa.Instru
 				case bool:
 					tv = cv
 				case *Term:
+					// unwinding bound for loops whose exit condition stays symbolic
+					if fr.symIf == nil {
+						fr.symIf = map[*ssa.If]int{}
+					}
+					fr.symIf[i]++
+					if fr.symIf[i] > maxSymbolicUnwind {
+						ex.res.Undischarged = append(ex.res.Undischarged, "unwinding bound: a symbolic branch was decided more than "+strconv.Itoa(maxSymbolicUnwind)+" times in one activation of "+fn.String()+" @ "+ex.pos2s(insPos(i, blk)))
+						panic(abortPath{"unwinding bound hit"})
+					}
 					tv = ex.branch(cv, ex.pos2s(insPos(i, blk)))
 				default:
 					panic(&GoPanic{Kind: "unsupported", Msg: fmt.Sprintf("if on %T", c)})
@@ -908,7 +931,45 @@ func (ex *Exec) exec(fr *frame, ins ssa.Instruction) {
 			panic(&GoPanic{Kind: "nil", Msg: "nil pointer dereference (store)", Pos: ex.pos2s(i.Pos())})
 		}
 		ex.store(p, ex.get(fr, i.Val), ex.pos2s(i.Pos()))
+	case *ssa.Defer:
+		// the call target and arguments are evaluated now, the call runs at RunDefers (LIFO); defers are
+		// not run while a panic unwinds (no recover() in the interpreted code)
+		c := i.Call
+		var thunk func()
+		args := make([]Value, 0, len(c.Args)+1)
+		if c.IsInvoke() {
+			recv := ex.get(fr, c.Value)
+			ifc, ok := recv.(Iface)
+			if !ok {
+				panic(&GoPanic{Kind: "nil", Msg: "deferred method call on nil interface", Pos: ex.pos2s(i.Pos())})
+			}
+			m := ex.prog.LookupMethod(ifc.t, c.Method.Pkg(), c.Method.Name())
+			args = append(args, ifc.v)
+			for _, a := range c.Args {
+				args = append(args, ex.get(fr, a))
+			}
+			thunk = func() { ex.call(m, args, nil, i) }
+		} else {
+			for _, a := range c.Args {
+				args = append(args, ex.get(fr, a))
+			}
+			switch f := c.Value.(type) {
+			case *ssa.Function:
+				thunk = func() { ex.call(f, args, nil, i) }
+			case *ssa.Builtin:
+				cc := c
+				thunk = func() { ex.builtin(f, args, &cc, i) }
+			default:
+				fv := ex.get(fr, c.Value)
+				thunk = func() { ex.callValue(fv, args, i) }
+			}
+		}
+		fr.defers = append(fr.defers, thunk)
 	case *ssa.RunDefers:
+		for k := len(fr.defers) - 1; k >= 0; k-- {
+			fr.defers[k]()
+		}
+		fr.defers = nil
 	case *ssa.DebugRef:
 	default:
 		panic(&GoPanic{Kind: "unsupported", Msg: fmt.Sprintf("instruction %T in %s", ins, fr.fn.String()), Pos: ex.pos2s(ins.Pos())})
